@@ -98,7 +98,8 @@ func (i *rangeAggIterator) Next(r *Step) bool {
 	// Aggregate the window.
 	r.Timestamp = otelstorage.NewTimestampFromTime(current)
 	r.Samples = r.Samples[:0]
-	for _, s := range i.window {
+	for _, key := range sortedKeys(i.window) {
+		s := i.window[key]
 		r.Samples = append(r.Samples, Sample{
 			Data: i.agg.Aggregate(s.Data),
 			Set:  s.Set,
